@@ -4,6 +4,7 @@ mod build;
 mod engine;
 mod enumr;
 mod exact;
+mod jts;
 #[macro_use]
 mod ops;
 mod props;
